@@ -4,6 +4,7 @@ CONSTANTS
   K = 3
   Budget = 1
   KeepSsz = FALSE
+  MaxOps = 8
   UseResult = TRUE
 INVARIANTS TypeOK NoOrphan Reclaimed FreeIsEmpty
 CHECK_DEADLOCK FALSE
